@@ -317,7 +317,7 @@ func c13Wire(run *evid.Run, cfg Cfg) {
 	pDaemon, pHigh := rig.FreePort("127.0.0.1"), rig.FreePort("127.0.0.3")
 	peers := map[uint64]string{lowID: "127.0.0.2:1", daemonID: fmt.Sprintf("127.0.0.1:%d", pDaemon), highID: fmt.Sprintf("127.0.0.3:%d", pHigh)}
 	d, err := rig.PrepareDaemon(rig.DaemonOpts{Dir: cfg.Dir("c13-wire"), ID: daemonID, IP: "127.0.0.1", Port: pDaemon, CA: ca, Peers: peers,
-		Permissions: map[string]map[string][]string{"client1": {"D": {"All"}}}, DistWallets: []string{"D"}})
+		Permissions: map[string]map[string][]string{"client1": {"D": {"All"}}}, DistWallets: []string{"D"}, Race: true})
 	if err != nil {
 		run.Inconclusive(err.Error())
 		return
@@ -327,6 +327,7 @@ func c13Wire(run *evid.Run, cfg Cfg) {
 		return
 	}
 	defer d.Kill()
+	defer daemonRaceReports(run, d, "key-generation messages from two peers")
 	high, err := rig.NewFakePeer(ca, "127.0.0.3", pHigh)
 	if err != nil {
 		run.Inconclusive("cannot start fake peer: " + err.Error())
@@ -497,5 +498,96 @@ func c13Wire(run *evid.Run, cfg Cfg) {
 	}
 	if run.Get("wire_fault_cases") == 0 || run.Get("wire_valid_generations") == 0 {
 		run.Inconclusive("the wire slice ran no fault case or no valid generation")
+	}
+	// Contributions from both peers answered by the daemon at the same time: each reply, as it arrives over the wire,
+	// must carry the share of the peer on THAT connection (C16's ownership clause, here through the real server's
+	// encoding and sending).
+	highCert, _ := ca.Issue(rig.CertOpts{CN: "127.0.0.3", IPs: []string{"127.0.0.3"}})
+	connHigh, err := rig.Dial(d.Addr, rig.ClientTLS(ca, highCert.TLS), "")
+	if err != nil {
+		run.Inconclusive(err.Error())
+		return
+	}
+	defer connHigh.Close()
+	dkgHigh := pb.NewDKGClient(connHigh)
+	sessions := 8
+	var wg sync.WaitGroup
+	var mu sync.Mutex
+	mixed := 0
+	accounts := make([]string, sessions)
+	for sidx := 0; sidx < sessions; sidx++ {
+		accounts[sidx] = fmt.Sprintf("D/wire13-conc-%d", sidx)
+		req := &pb.PrepareRequest{Account: accounts[sidx], Passphrase: []byte("pass"), Threshold: uint32(t)}
+		for _, id := range ids {
+			host, port, _ := strings.Cut(peers[id], ":")
+			var p uint32
+			fmt.Sscan(port, &p)
+			req.Participants = append(req.Participants, &pb.Endpoint{Id: id, Name: host, Port: p})
+		}
+		ctx, cancel := call()
+		_, err := dkg.Prepare(ctx, req)
+		cancel()
+		if err != nil {
+			run.Inconclusive("wire prepare failed: " + err.Error())
+			return
+		}
+	}
+	// Both peers contribute again and again to the prepared sessions (a contribution may be repeated), 24
+	// streams each, for a few seconds.
+	stop := time.Now().Add(time.Duration(cfg.N(4, 40)) * time.Second)
+	for w := 0; w < 48; w++ {
+		who := struct {
+			id  uint64
+			cli pb.DKGClient
+		}{lowID, dkg}
+		if w%2 == 1 {
+			who.id, who.cli = highID, dkgHigh
+		}
+		w := w
+		wg.Add(1)
+		go func() {
+			defer wg.Done()
+			sec, vv := fakeContribution(t, daemonID)
+			for k := 0; time.Now().Before(stop); k++ {
+				account := accounts[(k+w)%sessions]
+				ctx, cancel := call()
+				res, err := who.cli.Contribute(ctx, &pb.ContributeRequest{Account: account, Secret: sec, VerificationVector: vv})
+				cancel()
+				if err != nil {
+					continue
+				}
+				var sk bls.SecretKey
+				if sk.Deserialize(res.GetSecret()) != nil {
+					continue
+				}
+				pub := sk.GetPublicKey().Serialize()
+				bad := uint64(0)
+				for _, id := range ids {
+					ev, err := oracle.EvalVVec(res.GetVerificationVector(), id)
+					if err == nil && (string(ev) == string(pub)) != (id == who.id) {
+						bad = id
+					}
+				}
+				mu.Lock()
+				run.Count("wire_concurrent_contribution_replies", 1)
+				if bad != 0 {
+					mixed++
+					if mixed <= 3 {
+						run.Violate(fmt.Sprintf("wire: with two peers contributing at the same time, the reply that reached peer %d is (not) the share of participant %d", who.id, bad),
+							map[string]any{"account": account, "caller": who.id, "share_matches_id": bad})
+					}
+				}
+				mu.Unlock()
+			}
+		}()
+	}
+	wg.Wait()
+	run.Eval(run.Get("wire_concurrent_contribution_replies"))
+	run.Distinct(fmt.Sprintf("wire: concurrent contributions from two peers, replies checked=%v", run.Get("wire_concurrent_contribution_replies") > 0))
+	if run.Get("wire_concurrent_contribution_replies") == 0 {
+		run.Inconclusive("no concurrent contribution reply was observed")
+	}
+	if !d.Alive() {
+		run.Violate("wire: the daemon died during concurrent contributions: "+firstPanicLine(d.LogTail(30000)), nil)
 	}
 }
